@@ -1549,3 +1549,8 @@ mod tests {
         }
     }
 }
+
+#[cfg(kani)]
+mod verif {
+    include!(concat!(env!("PROFIRUST_VERIF_HARNESS"), "/fdl_active.rs"));
+}
